@@ -153,7 +153,9 @@ func init() {
 		e.poolCheck(fr, st, args[0], args[1], pos)
 		return Val{T: "0"}
 	}
-	models["(*sync.WaitGroup).Add"] = func(e *Exec, fr *Frame, st *State, args []Val, cc *ssa.CallCommon, pos token.Pos) Val { return Val{T: "0"} }
+	models["(*sync.WaitGroup).Add"] = func(e *Exec, fr *Frame, st *State, args []Val, cc *ssa.CallCommon, pos token.Pos) Val {
+		return Val{T: "0"}
+	}
 	models["(*sync.WaitGroup).Done"] = models["(*sync.WaitGroup).Add"]
 	models["(*sync.WaitGroup).Wait"] = models["(*sync.WaitGroup).Add"]
 
@@ -451,8 +453,9 @@ func (e *Exec) havocSliceRegion(st *State, s Val) {
 }
 
 // modelRead: conn.Read / io.ReadFull over the ghost input stream of the connection.
-//   G_in[c]   : the (infinite) sequence of bytes the peer sends, fixed
-//   G_inpos[c]: how many of them have been consumed
+//
+//	G_in[c]   : the (infinite) sequence of bytes the peer sends, fixed
+//	G_inpos[c]: how many of them have been consumed
 func (e *Exec) modelRead(fr *Frame, st *State, c Val, buf Val, full bool) Val {
 	intT := types.Typ[types.Int]
 	errT := types.Universe.Lookup("error").Type()
